@@ -104,7 +104,7 @@ def gen_composition(rng, maxops=12):
         elif k == "vsr":
             ns, name = rng.choice(arbgen.NSS), rng.choice(["r1", "r2"])
             o = w.ident("vsr", ns, name)
-            subs = rng.choice([["/r"], ["/r/a", "/r/b"], ["/s"], ["/s/x", "/r/y"], ["=/e"], ["~^/x"], ["/t"], ["/r", "/s"]])
+            subs = rng.choice([["/r"], ["/r/a", "/r/b"], ["/s"], ["/s/x", "/r/y"], ["=/e"], ["~^/x"], ["/t"], ["/r", "/s"], []])
             ops.append("vsr|%s|%s|%s|%d|%d|%s|%s|%s|%s" % (ns, name, o["uid"], o["ts"], o["gen"], "0" if rng.chance(1, 12) else "1",
                                                         "0" if rng.chance(1, 10) else "1", rng.choice(hosts), "+".join(subs)))
         elif k == "rival":
@@ -157,8 +157,33 @@ def gen_shared_route(rng):
     return arbgen.line(True, False, rng.shuffle(ops))
 
 
+SUB_SHAPES = [[], ["/r"], ["/r/a"], ["/r/a", "/r/b"], ["/s"], ["=/e"], ["~^/x"], ["=/f"], ["/r", "/s"], ["/r/a", "=/e"]]
+
+
+def gen_route_shapes():
+    """Exhaustive: one VirtualServer route of each path kind (prefix, exact, regex) delegating to one VirtualServerRoute with each
+    shape of subroute list (none, matching, not matching, several), in both arrival orders, then the route edited to every other
+    shape: which routes are attached must follow the declaration exactly at every step."""
+    out = []
+    for path in ("/r", "=/e", "~^/x"):
+        for ref in ("r1", "e/r1"):
+            rns = "d" if ref == "r1" else "e"
+            vs = "vs|d|v1|u001|1|1|1|1|a.ex|%s>%s|-|-" % (path, ref)
+            for i, s1 in enumerate(SUB_SHAPES):
+                vsr1 = "vsr|%s|r1|u002|1|1|1|1|a.ex|%s" % (rns, "+".join(s1))
+                out.append(arbgen.line(True, False, [vs, vsr1]))
+                for j, s2 in enumerate(SUB_SHAPES):
+                    if i == j or ref != "r1":
+                        continue
+                    vsr2 = "vsr|%s|r1|u002|1|2|1|1|a.ex|%s" % (rns, "+".join(s2))
+                    out.append(arbgen.line(True, False, [vsr1, vs, vsr2]))
+    return out
+
+
 def gen(rng, tier):
     cases = []
+    for l in gen_route_shapes():
+        cases.append(dict(line=l, tags=["route-shapes"]))
     for _ in range(150 if tier == "quick" else 2000):
         cases.append(dict(line=gen_shared_route(rng), tags=["shared-route"]))
     for _ in range(150 if tier == "quick" else 2000):
